@@ -280,6 +280,18 @@ var c12Fields = []fieldSpec{
 	{1302, "name", "untrusted", func(e string) string {
 		return "item=0 name=" + e + " inode=1 dev=08:01 mode=0100644 ouid=0 ogid=0 rdev=00:00 nametype=NORMAL"
 	}},
+	// cwd is decoded wherever it occurs, not only in CWD records (sudo's USER_CMD carries one)
+	{1123, "cwd", "untrusted", func(e string) string {
+		return "pid=1 uid=0 auid=0 ses=1 msg='cwd=" + e + " cmd=6C73 terminal=pts/0 res=success'"
+	}},
+	{1300, "cwd", "untrusted", func(e string) string {
+		return "arch=c000003e syscall=2 success=yes exit=3 a0=7ffc items=1 ppid=1 pid=2 auid=1000 uid=0 comm=\"cat\" exe=\"/bin/cat\" cwd=" + e + " key=(null)"
+	}},
+	{1101, "cwd", "untrusted", func(e string) string { return "pid=1 uid=0 auid=0 ses=1 msg='op=x cwd=" + e + " res=success'" }},
+	{2999, "cwd", "untrusted", func(e string) string { return "pid=1 cwd=" + e + " zz=1" }},
+	{1326, "exe", "untrusted", func(e string) string {
+		return "auid=1000 uid=0 gid=0 ses=1 pid=2 comm=\"cat\" exe=" + e + " sig=31 arch=c000003e syscall=2 compat=0 ip=0x7f code=0x0"
+	}},
 	{1327, "proctitle", "proctitle", func(e string) string { return "proctitle=" + e }},
 	{1123, "cmd", "untrusted", func(e string) string {
 		return "pid=1 uid=0 auid=0 ses=1 msg='cwd=\"/root\" cmd=" + e + " terminal=pts/0 res=success'"
@@ -416,7 +428,7 @@ func parseFieldsCmd(args []string) int {
 	for _, f := range c12Fields {
 		for i := 0; i < *n; i++ {
 			v := randomValue(rng, f.how == "proctitle")
-			if f.key == "cmd" || f.key == "acct" {
+			if strings.Contains(f.line("X"), "msg='") {
 				// these fields sit inside msg='...': a single quote in a quoted value would end the outer string
 				for j := range v {
 					if v[j] == '\'' && !needsHex(v) {
